@@ -371,7 +371,7 @@ fn exec_op(ctx: &mut Ctx, tok: &str) -> String {
             let (_, bus) = ctx.dmd.verif_parts();
             duart_string(bus.verif_duart())
         }
-        "fs" => final_state(&mut ctx.dmd),
+        "fs" => final_state(&mut ctx.dmd).replace(' ', ";"),
         // annotation for the monitors: no effect
         "X" => "-".into(),
         _ => panic!("unknown op '{}'", tok),
